@@ -90,12 +90,58 @@ def rule_z1(chk: Check, ix: Index):
                 where, f"both must feed a readline callable to the tokenizer (file: {ga}, string: {gb})")
 
 
+def rule_source_verbatim(chk: Check, ix: Index, rule_id: str = "Z5-source-verbatim"):
+    """Positions and error text refer to the caller's text: the string given to an entry point reaches the line reader as it is.
+    In `parse_string` (and the str branch of `generate_tokens`) the parameter is never re-bound and the argument of the StringIO
+    that feeds the tokenizer is the parameter itself — a stripped / re-joined / normalised copy shifts every line and column."""
+    for q, pname in (("Parser.parse_string", "source"), ("generate_tokens", "readline")):
+        f = ix.funcs.get(q)
+        chk.count(rule_id)
+        if f is None:
+            raise AnalysisError(f"{q} vanished")
+        params = [a.arg for a in f.node.args.args]
+        src = pname if pname in params else next((p for p in params if p not in ("self", "cls")), None)
+        rebinds = [norm_stmt(n)[:60] for n in own_nodes(f.node)
+                   if isinstance(n, (ast.Assign, ast.AugAssign, ast.AnnAssign)) and any(
+                       isinstance(t, ast.Name) and t.id == src for t in (n.targets if isinstance(n, ast.Assign) else [n.target]))
+                   and not (q == "generate_tokens" and "StringIO" in norm_stmt(n))]
+        sios = _calls(f.node, lambda s_: s_.endswith("StringIO"))
+        args_ok = all(c.args and isinstance(c.args[0], ast.Name) and c.args[0].id == src for c in sios)
+        # locals derived from the source by a text method and then fed to the reader
+        derived = [norm_stmt(n)[:60] for n in own_nodes(f.node) if isinstance(n, ast.Call) and isinstance(n.func, ast.Attribute)
+                   and isinstance(n.func.value, ast.Name) and n.func.value.id == src
+                   and n.func.attr in ("strip", "lstrip", "rstrip", "replace", "expandtabs", "splitlines", "split", "translate", "encode",
+                                       "removeprefix", "removesuffix", "lower", "upper", "casefold", "format")]
+        chk.require(bool(sios) and args_ok and not rebinds and not derived, rule_id, f"{q}:{src}", f.where,
+                    f"the text handed to the tokenizer is not the caller's text as given (re-bound: {rebinds}; derived: {derived}; reader "
+                    f"arguments: {[norm_stmt(c.args[0])[:30] if c.args else '' for c in sios]}): every line and column of the tree and of syntax "
+                    f"errors then refers to the modified copy (e.g. leading blanks stripped in eval mode)")
+
+
 def rule_z2_z3(chk: Check, ix: Index):
     opens = []
     for q, f in sorted(ix.funcs.items()):
         for n in own_nodes(f.node):
             if isinstance(n, ast.Call) and norm_stmt(n.func) in ("open", "io.open", "path.open"):
                 opens.append((q, f, n))
+    # other ways of turning a file into text: each is a decoder with its own default
+    for q, f in sorted(ix.funcs.items()):
+        if f.rel not in (repo.SUBHEADER, repo.TOKENIZER):
+            continue
+        for n in own_nodes(f.node):
+            if isinstance(n, ast.Call):
+                name = norm_stmt(n.func)
+                last = name.split(".")[-1]
+                if last in ("TextIOWrapper", "read_text", "open_code", "fdopen") or name in ("codecs.open", "os.open", "tokenize.open"):
+                    kw = _kw(n)
+                    enc = kw.get("encoding", "").strip("'\"").lower().replace("_", "-")
+                    chk.count("Z2-explicit-encoding")
+                    if last == "open_code":
+                        continue    # binary handle: what matters is the decoder wrapped around it
+                    chk.require(enc in ("utf-8", "utf8"), "Z2-explicit-encoding", f"{q}:{norm_stmt(n)[:60]}", f"{f.rel}:{n.lineno}",
+                                f"`{name}` decodes a source file without an explicit UTF-8 encoding (the locale's preferred encoding is "
+                                f"used): under a non-UTF-8 locale a file with a non-ASCII character raises UnicodeDecodeError or is "
+                                f"mis-decoded, while the same text passed as a string parses")
     if not opens:
         raise AnalysisError("no open() call found in the runtime modules (anchor vanished)")
     for q, f, n in opens:
@@ -193,6 +239,7 @@ def run(chk: Check):
     ix = Index()
     rule_z1(chk, ix)
     rule_z2_z3(chk, ix)
+    rule_source_verbatim(chk, ix)
     rule_z4(chk, ix)
     # string mode serves error text from token `line`s: string tokens must carry their lines (C08 L2); the cache must be
     # per parser (C13 U2/U3)
@@ -207,4 +254,4 @@ def run(chk: Check):
     rule_u2(chk)
     rule_u3(chk, ix)
     chk.floor("Z1-pipeline-agreement", 6)
-    chk.floor("Z2-explicit-encoding", 2)
+    chk.floor("Z2-explicit-encoding", 1)
